@@ -18,6 +18,7 @@ p = ROOT / "not_applicable.json"
 if p.exists():
     na_reasons = json.loads(p.read_text())
 
+REGISTERED = set((ROOT / "registered.txt").read_text().split())
 checks, na, engines = [], [], {}
 for pr in props:
     pid = pr["id"]
@@ -25,7 +26,7 @@ for pr in props:
         mod = importlib.import_module(f"vf.props.{pid.lower()}")
     except ModuleNotFoundError:
         mod = None
-    if mod is None or not getattr(mod, "REGISTER", False):
+    if mod is None or pid not in REGISTERED or not getattr(mod, "REGISTER", False):
         na.append({"property_id": pid, "reason": na_reasons.get(pid, "check not built yet (work in progress); nothing is claimed for this property")})
         continue
     m = mod.MANIFEST
